@@ -195,6 +195,133 @@ theorem C09_load_into (doc : PyVal) (s0 s : ImgState) (n0 : Nat)
     (h : deserializeInto s0 n0 doc = .ok s) : Uniq s.cells :=
   uniq_of_noNewPairs (loadInto_noNewPairs doc s0 s n0 hv h) hu
 
+/-! ### a `loads` that raises: the object lives on (`loadsInto`, `hstep` is total)
+
+`Images.deserialize` assigns `header.version` first, then the compose fields, then files image after image through
+`add`; nothing is cleared before and nothing is rolled back after an exception.  A caller that catches the exception
+holds an object with the document's header version, the images that were there before and the images of the
+document read before the offending entry. -/
+
+/-- … no new colliding pair in that object, for every outcome of the call -/
+theorem C09_failed_load_pairs (doc : PyVal) (s0 : ImgState) (n0 : Nat)
+    (hv : ∀ ver, headerDeserialize doc = .ok ver → Enforces ver) :
+    NoNewPairs s0.cells (loadsInto s0 n0 doc).1.cells := loadsInto_noNewPairs doc s0 n0 hv
+
+/-- **failed load**: `loads` of a document whose header — the gate in force while its images are filed — enforces
+the scan, into a unique manifest, raises `e`: the object left behind is a unique manifest (partial content included) -/
+theorem C09_failed_load_invariant (doc : PyVal) (s0 : ImgState) (n0 : Nat) (e : Err)
+    (hv : ∀ ver, headerDeserialize doc = .ok ver → Enforces ver) (hu : Uniq s0.cells)
+    (_hfail : (loadsInto s0 n0 doc).2 = .error e) : Uniq (loadsInto s0 n0 doc).1.cells :=
+  uniq_of_noNewPairs (loadsInto_noNewPairs doc s0 n0 hv) hu
+
+/-- the header a failed load leaves is what `Header.deserialize` assigned: the document's `header.version` as it
+stands in the document (validated or not), or the old one when the document has none — never the current version -/
+theorem C09_failed_load_version (doc : PyVal) (s0 : ImgState) (n0 : Nat) (e : Err)
+    (hfail : (loadsInto s0 n0 doc).2 = .error e) :
+    (loadsInto s0 n0 doc).1.version = (headerDeserializeInto s0.version doc).1 := by
+  cases hh : headerDeserializeInto s0.version doc with
+  | mk ver r =>
+  unfold loadsInto at hfail ⊢
+  rw [hh] at hfail ⊢
+  cases r with
+  | error e' => rfl
+  | ok u =>
+    cases u
+    simp only at hfail ⊢
+    split
+    · rfl
+    · split
+      · rfl
+      · split
+        · rfl
+        · rename_i c _ _ images vs _
+          have hinv := loadVariantsT_inv (ver := ver) (P := fun _ => True) ⟨fun _ _ _ _ _ _ _ => trivial⟩ images vs
+            ({ version := ver, compose := c, cells := s0.cells }, n0) ⟨rfl, trivial⟩
+          split
+          · rename_i acc e' heq'
+            rw [heq'] at hinv
+            exact hinv.1
+          · rename_i acc heq'
+            exfalso
+            simp only [*] at hfail
+            rw [images_no_validators] at hfail
+            cases hfail
+
+/-- a load that returns leaves the current version (which enforces the scan: `cur_enforces`) -/
+theorem C09_load_version_ok (doc : PyVal) (s0 : ImgState) (n0 : Nat) (h : (loadsInto s0 n0 doc).2 = .ok ()) :
+    (loadsInto s0 n0 doc).1.version = .str currentVersion := by
+  unfold loadsInto at h ⊢
+  split
+  · rename_i heq; rw [heq] at h; cases h
+  · rename_i ver heq
+    rw [heq] at h
+    simp only at h ⊢
+    split
+    · simp only [*] at h; cases h
+    · split
+      · simp only [*] at h; cases h
+      · split
+        · simp only [*] at h; cases h
+        · split
+          · simp only [*] at h; cases h
+          · rfl
+
+/-- **the gate after a failed load, header readable**: the object carries the document's version; when that
+enforces the scan, every later `add` is checked against everything present -/
+theorem C09_failed_load_gate (doc : PyVal) (s0 : ImgState) (n0 : Nat) (e : Err) (ver : PyVal)
+    (hver : headerDeserialize doc = .ok ver) (hfail : (loadsInto s0 n0 doc).2 = .error e) :
+    (loadsInto s0 n0 doc).1.version = ver := by
+  rw [C09_failed_load_version doc s0 n0 e hfail]
+  cases hh : headerDeserializeInto s0.version doc with
+  | mk w r =>
+    unfold headerDeserializeInto at hh
+    split at hh
+    · rename_i e' hitem
+      exfalso
+      unfold headerDeserialize at hver
+      obtain ⟨hdr, h1, hver⟩ := bind_ok hver
+      obtain ⟨w', h2, _⟩ := bind_ok hver
+      rw [h1] at hitem
+      simp only [Except.bind] at hitem
+      rw [h2] at hitem
+      cases hitem
+    · rw [hver] at hh
+      rw [Prod.mk.injEq] at hh
+      have hok : headerDeserializeInto s0.version doc = (w, .ok ()) := by
+        unfold headerDeserializeInto
+        rename_i ver' hitem
+        rw [hitem, hver]
+        simp only [Except.map]
+        rw [hh.1]
+      have := headerDeserializeInto_ok hok
+      rw [hver] at this
+      injection this with this
+      exact this.symm
+
+/-- **header not readable** (missing, version malformed, wrong `type` at ≥ 1.1): the call raises with the images untouched -/
+theorem C09_failed_header_cells (doc : PyVal) (s0 : ImgState) (n0 : Nat) (e : Err) (hh : headerDeserialize doc = .error e) :
+    (loadsInto s0 n0 doc).1.cells = s0.cells ∧ ∃ e', (loadsInto s0 n0 doc).2 = .error e' := by
+  unfold loadsInto
+  split
+  · rename_i e' _; exact ⟨rfl, e', rfl⟩
+  · rename_i ver heq
+    rw [headerDeserializeInto_ok heq] at hh
+    cases hh
+
+/-- **histories of any length over the total step** — `add` (accepted / refused), `dumps`, `header.version = …`,
+`loads` into the same object (returned / RAISED, the history goes on with the object as it was left), `discard`,
+`del`: when every `add` happens at an enforcing header of the object at that moment and every loaded document has an
+enforcing header, no colliding pair is created … -/
+theorem C09_history_total_pairs (s : ImgState) (ops : List HOp) (h : EnforcedRun s ops) :
+    NoNewPairs s.cells (ops.foldl (fun s op => (hstep s op).1) s).cells := run_noNewPairs ops s h
+
+/-- … and a unique manifest stays unique -/
+theorem C09_history_total (s : ImgState) (ops : List HOp) (h : EnforcedRun s ops) (hu : Uniq s.cells) :
+    Uniq (ops.foldl (fun s op => (hstep s op).1) s).cells := uniq_of_noNewPairs (run_noNewPairs ops s h) hu
+
+/-- the step `hstep` takes for `loads` is `loadsInto`, whatever the outcome (the history does not end there) -/
+theorem C09_hstep_loads (s : ImgState) (doc : PyVal) (n0 : Nat) : hstep s (.loads doc n0) = loadsInto s n0 doc := rfl
+
 /-- **identity**: for an image that validates (hence can be written), the identity computed from the object
 equals the identity computed from its serialised dictionary (which lacks `unified` / `additional_variants`
 unless the image is unified) -/
@@ -254,6 +381,87 @@ theorem C09_cross_witness :
     ∧ (hstep (hstep (hstep ImgState.fresh (.add ⟨L "Server", L "x86_64", 0, witnessA⟩)).1 (.setVersion (.str (L "1.1")))).1
       (.add ⟨L "Client", L "i386", 1, witnessB⟩)).2 = .error .valueError := by
   decide +kernel
+/-! ### witnesses for the failed load -/
+
+/-- an object in use: fresh `Images()`, `witnessA` added, `dumps()` called (header now at the current version) -/
+def usedState : ImgState := (hstep (hstep ImgState.fresh (.add ⟨L "Server", L "x86_64", 0, witnessA⟩)).1 .dumps).1
+
+def witnessCompose : PyVal :=
+  .dict [(L "id", .str (L "Fedora-22-20131212.0")), (L "type", .str (L "production")), (L "date", .str (L "20131212")), (L "respin", .int 0)]
+
+/-- a document of format `ver`: the images `imgs` under Client/i386, then an entry without any key (KeyError) -/
+def brokenDoc (ver : Str) (imgs : List Image) : PyVal :=
+  .dict [(L "header", .dict [(L "version", .str ver), (L "type", .str Gen.HEADER_TYPE_Images)]),
+         (L "payload", .dict [(L "compose", witnessCompose),
+            (L "images", .dict [(L "Client", .dict [(L "i386", .list (imgs.map Image.dict ++ [.dict []]))])])])]
+
+/-- a third image: other identity (disc 2) -/
+def witnessC : Image := { witnessA with path := .str (L "c.iso"), disc_number := .int 2, checksums := .dict [(L "md5", .str (L "c"))] }
+
+example : usedState.version = .str currentVersion ∧ usedState.cells.all = [witnessA] := ⟨by rfl, by rfl⟩
+
+/-- **partial content is kept, the gate stays closed on the document's side** (format 1.2 / 1.1): the valid image in
+front of the malformed entry is filed and stays (two images, unique); a colliding image in front of it is refused
+(ValueError) with the images as they were; either way the header is left at the DOCUMENT's version, which enforces,
+and a colliding `add` afterwards is refused -/
+theorem C09_failed_load_witness :
+    (loadsInto usedState 1000 (brokenDoc (L "1.2") [witnessC])).2 = .error .keyError
+    ∧ (loadsInto usedState 1000 (brokenDoc (L "1.2") [witnessC])).1.cells.all = [witnessA, witnessC]
+    ∧ (loadsInto usedState 1000 (brokenDoc (L "1.2") [witnessC])).1.version = .str (L "1.2")
+    ∧ (loadsInto usedState 1000 (brokenDoc (L "1.1") [witnessB])).2 = .error .valueError
+    ∧ (loadsInto usedState 1000 (brokenDoc (L "1.1") [witnessB])).1.cells.all = [witnessA]
+    ∧ (loadsInto usedState 1000 (brokenDoc (L "1.1") [witnessB])).1.version = .str (L "1.1")
+    ∧ (add (loadsInto usedState 1000 (brokenDoc (L "1.1") [witnessB])).1 (L "Client") (L "i386") 1 witnessB).2 = .error .valueError := by
+  refine ⟨by decide +kernel, by rfl, by rfl, by decide +kernel, by rfl, by rfl, by decide +kernel⟩
+
+/-- hypotheses of `C09_failed_load_invariant` at that instance -/
+example : headerDeserialize (brokenDoc (L "1.2") [witnessC]) = .ok (.str (L "1.2")) := by rfl
+
+/-- **below 1.1 a failed load opens the gate of an object in use** (FINDING candidate): `usedState` is unique and at
+the current version (a colliding `add` is refused).  `loads` of a 1.0 document raises KeyError at its malformed second
+entry — the first entry, which collides with the image present, has been filed (the gate in force was the
+document's 1.0) and stays; the header is left at "1.0", not reset to the current version as after a load that
+returns; the manifest is no longer unique, and further colliding `add`s are accepted without any check -/
+theorem C09_failed_load_below_witness :
+    (add usedState (L "Client") (L "i386") 1 witnessB).2 = .error .valueError
+    ∧ (loadsInto usedState 1000 (brokenDoc (L "1.0") [witnessB])).2 = .error .keyError
+    ∧ (loadsInto usedState 1000 (brokenDoc (L "1.0") [witnessB])).1.version = .str (L "1.0")
+    ∧ ¬ Uniq (loadsInto usedState 1000 (brokenDoc (L "1.0") [witnessB])).1.cells
+    ∧ (loadsInto usedState 1000 (brokenDoc (L "1.0") [])).1.cells.all = [witnessA]
+    ∧ (add (loadsInto usedState 1000 (brokenDoc (L "1.0") [])).1 (L "Client") (L "i386") 1 witnessB).2 = .ok ()
+    ∧ ¬ Uniq (add (loadsInto usedState 1000 (brokenDoc (L "1.0") [])).1 (L "Client") (L "i386") 1 witnessB).1.cells := by
+  have h1 : (loadsInto usedState 1000 (brokenDoc (L "1.0") [witnessB])).1.cells.all = [witnessA, witnessB] := by rfl
+  have h2 : (add (loadsInto usedState 1000 (brokenDoc (L "1.0") [])).1 (L "Client") (L "i386") 1 witnessB).1.cells.all = [witnessA, witnessB] := by
+    rfl
+  refine ⟨by decide +kernel, by decide +kernel, by rfl, ?_, by rfl, by decide +kernel, ?_⟩
+  · intro hu
+    exact witness_collide.2 (hu witnessA (by rw [h1]; simp) witnessB (by rw [h1]; simp) witness_collide.1)
+  · intro hu
+    exact witness_collide.2 (hu witnessA (by rw [h2]; simp) witnessB (by rw [h2]; simp) witness_collide.1)
+
+/-- … whereas the same 1.0 document without the malformed entry loads, the header goes back to the current version and
+the colliding `add` is refused: the open gate is an effect of the FAILURE -/
+theorem C09_ok_load_below_contrast :
+    (loadsInto usedState 1000 (.dict [(L "header", .dict [(L "version", .str (L "1.0"))]),
+        (L "payload", .dict [(L "compose", witnessCompose), (L "images", .dict [])])])).2 = .ok ()
+    ∧ (add (loadsInto usedState 1000 (.dict [(L "header", .dict [(L "version", .str (L "1.0"))]),
+        (L "payload", .dict [(L "compose", witnessCompose), (L "images", .dict [])])])).1 (L "Client") (L "i386") 1 witnessB).2
+      = .error .valueError := by
+  decide +kernel
+
+/-- a history over the total step that satisfies `EnforcedRun` and contains a failed load: add, dumps, failed loads
+(1.2 document, partial content), colliding add (refused), add of another image (accepted) -/
+example : EnforcedRun ImgState.fresh
+    [.setVersion (.str (L "1.1")), .add ⟨L "Server", L "x86_64", 0, witnessA⟩, .dumps, .loads (brokenDoc (L "1.2") [witnessC]) 1000,
+     .add ⟨L "Client", L "i386", 1, witnessB⟩] := by
+  refine ⟨trivial, ?_, trivial, ?_, ?_, trivial⟩
+  · show Enforces _; unfold Enforces; decide +kernel
+  · intro ver hver
+    have : headerDeserialize (brokenDoc (L "1.2") [witnessC]) = .ok (.str (L "1.2")) := by rfl
+    rw [this] at hver; injection hver with hver; subst hver
+    unfold Enforces; decide +kernel
+  · show Enforces _; unfold Enforces; decide +kernel
+
 /-- hypotheses of `C09_load_rejects`: 1.2 and 2.0 headers have `old = false`, a 1.1 header has `old = true` and enforces -/
 example : versionTuple (.str (L "1.2")) = .ok (.nums (1, 2)) ∧ gateEval Gen.gate_images_Images_deserialize_0 (.nums (1, 2)) = .ok false
     ∧ gateEval Gen.gate_images_Images_deserialize_0 (.nums (2, 0)) = .ok false
